@@ -1910,6 +1910,10 @@ class _GroupElem(ABC):
             j_f = Normalize(coord[p2_f] - coord[p0_f])
 
             n_f = Normalize(np.cross(i_f, j_f, 1, 1))
+            # outward whatever the orientation of the element (a mirrored mesh has
+            # negatively oriented elements): point away from the vertex centroid
+            outward_f = np.einsum("fi,fi->f", n_f, coord[p0_f] - coord.mean(0))
+            n_f = n_f * np.sign(outward_f)[:, np.newaxis]
 
             coordinates_n_i = coordinates_n[:, np.newaxis].repeat(Nface, 1)
 
